@@ -162,6 +162,43 @@ def run(ctx, model):
                         ctx.violation("R-LB-GUARD", f.relpath, f.short, "<guard order>", f"{meth}: empty assertion reaches the width guard",
                                       f.node.lineno)
 
+    # ---------------- R-LB-GUARD, class forms with several assertion patterns: every one of them is checked
+    ASR = "pregex.core.assertions"
+    var_ops = [("p?", "optional"), ("p{2,3}", "range"), ("p*", "star"), ("[pq]+", "plus on a class")]
+    if ctx.tier == "quick":
+        var_ops = var_ops[:2]
+    for cname in ("PrecededBy", "NotPrecededBy", "EnclosedBy", "NotEnclosedBy"):
+        ci = model.cls(ASR, cname)
+        init = ci.find_method("__init__")
+        for vtext, vlabel in var_ops:
+            mkv = lambda vtext=vtext: make_operand(model, vtext, "Quantifier", True)
+            mkf = lambda: make_operand(model, "pq", "Other", True)
+            recv_ = lambda: make_operand(model, "st", "Other", True)
+            arrangements = {
+                "variable only": lambda: [recv_(), mkv()],
+                "fixed, then variable": lambda: [recv_(), mkf(), mkv()],
+                "variable, then fixed": lambda: [recv_(), mkv(), mkf()],
+                "literal with the same raw text, then variable": lambda vtext=vtext: [recv_(), vtext, mkv()],
+                "variable, then literal with the same raw text": lambda vtext=vtext: [recv_(), mkv(), vtext],
+                "fixed, fixed, variable": lambda: [recv_(), mkf(), "r", mkv()],
+            }
+            for alabel, mkargs in arrangements.items():
+                outs = B.run_thunk(model, lambda it, ci=ci, mkargs=mkargs: it.construct(ci, mkargs()))
+                for o in outs:
+                    inp = f"{cname}(match, {alabel}) with {vlabel} {vtext!r}"
+                    ctx.instance("R-LB-GUARD", key=inp, sample=f"{inp}: {o.describe()}")
+                    if not (o.kind == "raise" and o.exc.name == NFW):
+                        ctx.violation("R-LB-GUARD", init.relpath, f"{cname}.__init__", "<guard on every assertion pattern>",
+                                      f"{cname} accepts a variable-width assertion pattern among several assertion patterns",
+                                      init.node.lineno, inp=f"{cname}: {alabel}", detail=f"{inp}: {o.describe()}")
+        # and a literal that merely looks like a quantified pattern stays accepted
+        outs = B.run_thunk(model, lambda it, ci=ci: it.construct(ci, [make_operand(model, "st", "Other", True), "p?", "q*"]))
+        for o in outs:
+            ctx.instance("R-LB-GUARD", key=(cname, "literals"), sample=f"{cname}(match, 'p?', 'q*'): {o.describe()}")
+            if o.kind == "raise":
+                ctx.violation("R-LB-GUARD", init.relpath, f"{cname}.__init__", "<literals refused>",
+                              f"{cname} refuses literal strings that contain quantifier characters", init.node.lineno, detail=o.describe())
+
     # ---------------- R-LB-SIBLING
     sites = guard_sites(model)
     ctx.floor("R-LB-SIBLING", len(sites), 4, "look-behind builders")
